@@ -337,3 +337,56 @@ Theorem C12_full_stack_view_at_pending :
         (ver (f_lim s') <> 0 -> param (u_st (a_u a)) = val (f_lim s')).
 Proof. exact (@full_view_at_pending). Qed.
 Print Assumptions C12_full_stack_view_at_pending.
+
+(* ---------------- the NESTED LOOPS keep every level's view correct (ChainView.v) ----------------
+   C12_compose above composes step FUNCTIONS (the eager composition).  Real stacked adapters are
+   nested poll loops: every level has its own ready buffer and pulls lazily from the level below
+   (ChainPoll.chain_poll).  For a stack of ANY height whose stages satisfy the one-step statements
+   (cstage packages a stage with its relation R and the proofs), with [chain_view]: every level is
+   behind the level below it by exactly its parked diffs:
+   (1) one poll of the top preserves [chain_view], consumes a prefix of the queued source diffs and,
+       if it hands out a diff, that diff is applicable to the consumer's view;
+   (2) when the top answers Pending every ready buffer and queue is empty, every leaf holds the
+       waker, and the consumer's view is the top stage's view of ... of the bottom stage's view of
+       the source contents (for two stages: exists mid, Ra sa l mid /\ Rb sb mid v);
+   (3) polled repeatedly the stack always answers (given enough fuel, which no function of the
+       queue lengths alone bounds: refuted by computation) and reaches a non-item answer. *)
+From EB Require Import ChainPoll ChainPollFacts ChainView.
+
+Theorem C12_lazy_chain_keeps_every_view :
+  forall (A : Type) (depth fuel : nat) (cc : cchain (A:=A)) (l v lq : list A) c' r tr,
+    chain_view cc l v ->
+    apply_all_ok (fst (snd cc)) l = Some lq ->
+    chain_poll depth fuel (erase cc) = Ok (c', r, tr) ->
+    exists (cc' : cchain) (l' : list A),
+      erase cc' = c' /\ Forall2 evolves (fst cc) (fst cc') /\
+      apply_all_ok (fst (snd cc')) l' = Some lq /\
+      match r with
+      | Ready (Some d) => exists v1, apply_all_ok [d] v = Some v1 /\ chain_view cc' l' v1
+      | _ => chain_view cc' l' v
+      end.
+Proof. intro A. exact (@chain_poll_view A). Qed.
+Print Assumptions C12_lazy_chain_keeps_every_view.
+
+Theorem C12_lazy_chain_view_at_pending :
+  forall (A : Type) (depth fuel : nat) (cc : cchain (A:=A)) (l v lq : list A) c' tr,
+    chain_view cc l v -> apply_all_ok (fst (snd cc)) l = Some lq ->
+    chain_poll depth fuel (erase cc) = Ok (c', Pending, tr) ->
+    exists cc' : cchain,
+      erase cc' = c' /\ Forall2 evolves (fst cc) (fst cc') /\
+      snd cc' = ([], false) /\ all_registered c' tr /\ quiet_view (fst cc') lq v.
+Proof. intro A. exact (@chain_view_at_pending A). Qed.
+Print Assumptions C12_lazy_chain_view_at_pending.
+
+Theorem C12_lazy_chain_always_answers :
+  forall (A : Type) (cc : cchain (A:=A)) l v lq,
+    chain_view cc l v -> apply_all_ok (fst (snd cc)) l = Some lq ->
+    drains (erase cc) /\
+    exists F res, forall depth fuel, length (fst cc) <= depth -> F <= fuel ->
+      chain_poll depth fuel (erase cc) = Ok res.
+Proof.
+  intros A cc l v lq H1 H2. split.
+  - exact (chain_view_drains cc l v lq H1 H2).
+  - exact (chain_poll_no_panic cc l v lq H1 H2).
+Qed.
+Print Assumptions C12_lazy_chain_always_answers.
